@@ -34,6 +34,290 @@ def callkey():
     return {"cases": cases, "violations": violations}
 
 
+
+
+# =====================================================================================================
+# reference validation: contracts/refs/* (plain Python) against the real CPython functions
+# =====================================================================================================
+import builtins as _b
+import itertools as _it
+
+
+class K:
+    """comparable by key only; distinguishable by tag"""
+    def __init__(self, k, tag):
+        self.k, self.tag = k, tag
+
+    def __lt__(self, o):
+        return self.k < o.k
+
+    def __gt__(self, o):
+        return self.k > o.k
+
+    def __eq__(self, o):
+        return isinstance(o, K) and self.k == o.k
+
+    def __hash__(self):
+        return hash(self.k)
+
+    def __bool__(self):
+        return self.k != 0
+
+    def __add__(self, o):
+        return K(self.k + o.k, f"({self.tag}+{o.tag})")
+
+    def __repr__(self):
+        return f"{self.k}{self.tag}"
+
+
+class Boom(Exception):
+    pass
+
+
+class Src:
+    def __init__(self, name, items, log, fail_at=None):
+        self.name, self.items, self.log, self.fail_at, self.i = name, items, log, fail_at, 0
+
+    def __iter__(self):
+        return self
+
+    def __next__(self):
+        i = self.i
+        self.i += 1
+        if self.fail_at == i:
+            self.log.append(("pull", self.name, "raise"))
+            raise Boom(self.name)
+        if i >= len(self.items):
+            self.log.append(("pull", self.name, "end"))
+            raise StopIteration
+        self.log.append(("pull", self.name, "item"))
+        return self.items[i]
+
+
+def Fn(name, log, f, fail_at=None):
+    st = {"n": 0}
+
+    def call(*a):
+        n = st["n"]
+        st["n"] += 1
+        log.append(("call", name, tuple((x.k, x.tag) if isinstance(x, K) else x for x in a)))
+        if fail_at == n:
+            raise Boom(name)
+        return f(*a)
+    return call
+
+
+def run_case(fn, mkargs, steps, kind):
+    log = []
+    try:
+        args, kw = mkargs(log)
+        r = fn(*args, **kw)
+        if kind == "gen":
+            it = iter(r)
+            out = []
+            for _ in range(steps):
+                try:
+                    v = next(it)
+                except StopIteration:
+                    out.append("stop")
+                    break
+                log.append(("yield", canon_id(v)))
+            return log, ("gen",)
+        return log, ("return", canon_id(r))
+    except BaseException as e:
+        return log, ("raise", type(e).__name__)
+
+
+def canon_id(v):
+    if isinstance(v, K):
+        return ("K", v.k, v.tag)
+    if isinstance(v, (list, tuple)):
+        return (type(v).__name__,) + tuple(canon_id(x) for x in v)
+    if isinstance(v, (set, frozenset)):
+        return ("set", tuple(sorted((x.k, x.tag) for x in v)))
+    if isinstance(v, dict):
+        return ("dict", tuple((canon_id(a), canon_id(b)) for a, b in v.items()))
+    return v
+
+
+def norm_log(log):
+    """A5: a pull on a source that already answered `end`/`raise` is not an observable event"""
+    done = set()
+    out = []
+    for e in log:
+        if e[0] == "pull":
+            if e[1] in done:
+                continue
+            if e[2] in ("end", "raise"):
+                done.add(e[1])
+        out.append(e)
+    return out
+
+
+def seqs(maxlen, keys=(0, 1, 2)):
+    out = [[]]
+    for n in range(1, maxlen + 1):
+        for ks in itertools.product(keys, repeat=n):
+            out.append(list(ks))
+    return out
+
+
+def refs(tier="quick"):
+    import functools as _ft
+    from contracts.refs import ref_builtins as rb, ref_itertools as ri, ref_functools as rf
+    maxlen = 3 if tier == "quick" else 4
+    lists = seqs(maxlen)
+    short = seqs(2)
+    cases = 0
+    bad = []
+
+    def compare(name, ref, real, mk, kind, steps=(8,), faults=True):
+        nonlocal cases
+        for st in steps:
+            a = run_case(ref, mk, st, kind)
+            b = run_case(real, mk, st, kind)
+            a, b = (norm_log(a[0]), a[1]), (norm_log(b[0]), b[1])
+            cases += 1
+            if a != b and len(bad) < 10:
+                bad.append(f"{name}: reference {a} vs CPython {b}")
+
+    pred = lambda x: x.k % 2 == 1
+    INIT, DFLT = K(9, "init"), K(7, "d")
+    for ks in lists:
+        items = [K(k, chr(97 + i)) for i, k in enumerate(ks)]
+        n = len(items)
+        for fail in [None] + list(range(n + 1)):
+            for cfail in [None] + list(range(min(n, 3))):
+                if fail is not None and cfail is not None:
+                    continue
+                S = lambda log, nm="a": Src(nm, items, log, fail)
+                P = lambda log, nm="p", f=pred: Fn(nm, log, f, cfail)
+                for st in (0, 1, 2, n + 1):
+                    compare("filter", rb.filter, _b.filter, lambda log: ((P(log), S(log)), {}), "gen", (st,))
+                    compare("filterfalse", ri.filterfalse, _it.filterfalse, lambda log: ((P(log), S(log)), {}), "gen", (st,))
+                    compare("takewhile", ri.takewhile, _it.takewhile, lambda log: ((P(log), S(log)), {}), "gen", (st,))
+                    compare("dropwhile", ri.dropwhile, _it.dropwhile, lambda log: ((P(log), S(log)), {}), "gen", (st,))
+                    compare("map1", rb.map, _b.map, lambda log: ((Fn("f", log, lambda x: x, cfail), S(log)), {}), "gen", (st,))
+                    if cfail is None:
+                        compare("filter-None", rb.filter, _b.filter, lambda log: ((None, S(log)), {}), "gen", (st,))
+                        compare("enumerate", rb.enumerate, _b.enumerate, lambda log: ((S(log), 5), {}), "gen", (st,))
+                        compare("pairwise", ri.pairwise, _it.pairwise, lambda log: ((S(log),), {}), "gen", (st,))
+                        compare("cycle", ri.cycle, _it.cycle, lambda log: ((S(log),), {}), "gen", (st + n,))
+                        compare("chain1", ri.chain, _it.chain, lambda log: ((S(log),), {}), "gen", (st,))
+                        for nb in (1, 2):
+                            compare("batched", ri.batched, _it.batched, lambda log: ((S(log), nb), {}), "gen", (st,))
+                        for sl in ((2,), (1, 3), (0, None, 2), (1, 5, 2), (2, 2), (None, 3, 2)):
+                            compare(f"islice{sl}", ri.islice, _it.islice, lambda log: ((S(log),) + sl, {}), "gen", (st,))
+                    compare("accumulate-f", lambda it, f, initial: ri.accumulate(it, f, initial=initial), lambda it, f, initial: _it.accumulate(it, f, initial=initial),
+                            lambda log: ((S(log), Fn("f", log, lambda x, y: y, cfail), INIT), {}), "gen", (st,))
+                if True:
+                    for key in (None, "key"):
+                        mkkw = lambda log: ({"key": Fn("key", log, lambda x: K(-x.k, "k"), cfail)} if key else {})
+                        if key is None and cfail is not None:
+                            continue
+                        compare("min", rb.min, _b.min, lambda log: ((S(log),), mkkw(log)), "coro")
+                        compare("max", rb.max, _b.max, lambda log: ((S(log),), mkkw(log)), "coro")
+                        compare("min-default", rb.min, _b.min, lambda log: ((S(log),), dict(mkkw(log), default=DFLT)), "coro")
+                        compare("max-default", rb.max, _b.max, lambda log: ((S(log),), dict(mkkw(log), default=DFLT)), "coro")
+                    if cfail is None:
+                        compare("all", rb.all, _b.all, lambda log: ((S(log),), {}), "coro")
+                        compare("any", rb.any, _b.any, lambda log: ((S(log),), {}), "coro")
+                        compare("sum", rb.sum, _b.sum, lambda log: ((S(log), K(0, "start")), {}), "coro")
+                        compare("list", rb.list_, _b.list, lambda log: ((S(log),), {}), "coro")
+                        compare("tuple", rb.tuple_, _b.tuple, lambda log: ((S(log),), {}), "coro")
+                        for rev in (False, True):
+                            # result only (asyncstdlib interleaves key calls with pulls; C02 speaks of the result)
+                            a = rb.sorted_(list(items), key=lambda x: x.k, reverse=rev)
+                            b = _b.sorted(list(items), key=lambda x: x.k, reverse=rev)
+                            a2 = rb.sorted_(list(items), reverse=rev)
+                            b2 = _b.sorted(list(items), reverse=rev)
+                            cases += 2
+                            if [id(x) for x in a] != [id(x) for x in b] or [id(x) for x in a2] != [id(x) for x in b2]:
+                                bad.append(f"sorted reverse={rev} {items}")
+                    compare("reduce", rf.reduce, _ft.reduce, lambda log: ((Fn("f", log, lambda x, y: y if y.k >= x.k else x, cfail), S(log)), {}), "coro")
+                    compare("reduce-init", rf.reduce, _ft.reduce, lambda log: ((Fn("f", log, lambda x, y: y, cfail), S(log), K(5, "i")), {}), "coro")
+    for ka in short:
+        for kb in short:
+            A = [K(k, "a%d" % i) for i, k in enumerate(ka)]
+            B = [K(k, "b%d" % i) for i, k in enumerate(kb)]
+            for fa in [None] + list(range(len(A) + 1)):
+                for st in (0, 1, 3):
+                    two = lambda log: (Src("a", A, log, fa), Src("b", B, log))
+                    compare("zip", rb.zip, _b.zip, lambda log: (two(log), {}), "gen", (st,))
+                    compare("zip-strict", lambda *a: rb.zip(*a, strict=True), lambda *a: _b.zip(*a, strict=True), lambda log: (two(log), {}), "gen", (st,))
+                    compare("zip_longest", lambda *a: ri.zip_longest(*a, fillvalue=None), lambda *a: _it.zip_longest(*a, fillvalue=None), lambda log: (two(log), {}), "gen", (st,))
+                    compare("chain2", ri.chain, _it.chain, lambda log: (two(log), {}), "gen", (st,))
+                    compare("compress", ri.compress, _it.compress, lambda log: (two(log), {}), "gen", (st,))
+                    compare("map2", rb.map, _b.map, lambda log: ((Fn("f", log, lambda x, y: x),) + two(log), {}), "gen", (st,))
+    # groupby under operation histories
+    import random
+    rnd = random.Random(1)
+    for trial in range(400 if tier == "quick" else 3000):
+        ks = [rnd.randint(0, 2) for _ in range(rnd.randint(0, 7))]
+        ops = [rnd.choice("GGgs") for _ in range(rnd.randint(1, 12))]
+        outs = []
+        for cls in (ri.groupby, _it.groupby):
+            items = [K(k, "i%d" % i) for i, k in enumerate(ks)]
+            g = cls(iter(items), key=lambda x: x.k) if trial % 2 else cls(iter(items))
+            cur = stale = None
+            o = []
+            for op in ops:
+                try:
+                    if op == "G":
+                        k, grp = next(g)
+                        stale, cur = cur, grp
+                        o.append(("G", k if not isinstance(k, K) else k.k))
+                    elif op == "g" and cur is not None:
+                        o.append(("g", repr(next(cur))))
+                    elif op == "s" and stale is not None:
+                        o.append(("s", repr(next(stale))))
+                except StopIteration:
+                    o.append((op, "stop"))
+            outs.append(o)
+        cases += 1
+        if outs[0] != outs[1] and len(bad) < 10:
+            bad.append(f"groupby {ks} {ops}: reference {outs[0]} vs CPython {outs[1]}")
+    # abstract LRU view against functools.lru_cache
+    from contracts.refs import ref_lru
+    for trial in range(300 if tier == "quick" else 2000):
+        maxsize = rnd.choice([None, -1, 0, 1, 2, 3])
+        ops = [rnd.choice(["k0", "k1", "k2", "k3", "info", "clear", "fail"]) for _ in range(rnd.randint(1, 25))]
+        calls = [[], []]
+
+        def make(i):
+            def f(k):
+                calls[i].append(k)
+                if k == 99:
+                    raise Boom("f")
+                return ("v", k, len(calls[i]))
+            return f
+        real = _ft.lru_cache(maxsize=maxsize)(make(0))
+        spec = ref_lru.lru_cache(maxsize)(make(1))
+        o = [[], []]
+        for op in ops:
+            for i, c in enumerate((real, spec)):
+                try:
+                    if op.startswith("k"):
+                        o[i].append(c(int(op[1])))
+                    elif op == "fail":
+                        o[i].append(c(99))
+                    elif op == "info":
+                        o[i].append(tuple(c.cache_info()))
+                    else:
+                        c.cache_clear()
+                except Boom:
+                    o[i].append("boom")
+        cases += 1
+        if (o[0] != o[1] or calls[0] != calls[1]) and len(bad) < 10:
+            bad.append(f"lru maxsize={maxsize} {ops}: functools {o[0]} vs spec {o[1]}")
+    return {"cases": cases, "violations": bad}
+
+
 if __name__ == "__main__":
+    import os
+    sys.path.insert(0, os.path.dirname(os.path.dirname(os.path.abspath(__file__))))
     what = sys.argv[1]
-    print(json.dumps({"callkey": callkey}[what]()))
+    if what == "refs":
+        print(json.dumps(refs(sys.argv[2] if len(sys.argv) > 2 else "quick")))
+    else:
+        print(json.dumps({"callkey": callkey}[what]()))
